@@ -28,11 +28,12 @@ import (
 //verif:replace Conn.flush
 //verif:replace Conn.sendAlert
 //verif:replace Conn.verifyServerCertificate
-//verif:replace Conn.verifySessionCertificates
+//verif:replacecall (*github.com/emmansun/gmsm/smx509.Certificate).Verify verif_x509_Verify
 //verif:replace prfAndHashForVersion
 //verif:replacecall crypto/hmac.New verif_hmac_New
 //
 //verif:assume cut M: readHandshake / readChangeCipherSpec / writeHandshakeRecord / writeChangeCipherRecord / flush / sendAlert are stubs: every read returns an arbitrary message kind with bounded arbitrary fields (or an error); messages carry 2 arbitrary raw bytes
+//verif:assume cut M: verifySessionCertificates is the real function over an X.509 Verify stub with arbitrary verdicts (the options it passes are checked by the x509 group)
 //verif:assume cut M: verifyServerCertificate is a stub with an arbitrary verdict (the real function is checked by the C02 x509 harness); key agreement is a stub with arbitrary verdicts (the real functions are checked by the kx harnesses)
 //verif:assume E4/E5 (cut M): the transcript hash records its input; the PRF returns arbitrary bytes and its calls (secret, label, transcript at the call) are logged
 //verif:assume E11: the session cache returns an arbitrary session (version TLCP or arbitrary, one of the four suites or arbitrary, 48-byte or empty master secret) or nothing; Put calls are logged
@@ -83,6 +84,7 @@ var vg struct {
 	hellosRead int
 	shSID    []byte // session id of the ServerHello delivered
 	shALPN   string // application protocol selected in the ServerHello delivered
+	sessVerified int // X.509 verifications of recorded (session) certificates that succeeded
 }
 
 // datagram-stack ghost state (unused on the stream stack)
@@ -403,15 +405,17 @@ func (c *Conn) verifyServerCertificate(certificates [][]byte) error {
 	return nil
 }
 
-func (c *Conn) verifySessionCertificates(certs []*x509.Certificate) error {
-	if len(certs) < 2 {
-		return errors.New("need two certificates")
-	}
+// X.509 verification of the certificates recorded with a session (called by the REAL verifySessionCertificates):
+// arbitrary verdict per certificate; the resumed session counts as checked when both were verified
+func verif_x509_Verify(c *x509.Certificate, opts x509.VerifyOptions) ([][]*x509.Certificate, error) {
 	if verifSplitInt("x509VerdictResumed", 0, 1) == 0 {
-		return errors.New("verification of the recorded certificates failed")
+		return nil, errors.New("verification of a recorded certificate failed")
 	}
-	vg.certsOK = true
-	return nil
+	vg.sessVerified++
+	if vg.sessVerified >= 2 {
+		vg.certsOK = true
+	}
+	return [][]*x509.Certificate{{c}}, nil
 }
 
 // session cache stub (E11)
